@@ -1197,7 +1197,7 @@ func c05Lookup(c *Ctx, p *Prog, R string) {
 		}
 		for _, b := range dfn.Blocks {
 			ret, ok := b.Instrs[len(b.Instrs)-1].(*ssa.Return)
-			if !ok || len(ret.Results) != 1 {
+			if !ok || len(ret.Results) < 1 || len(ret.Results) > 2 {
 				continue
 			}
 			sl, ok := retVal(ret, 0).(*ssa.Slice)
@@ -1218,7 +1218,7 @@ func c05Lookup(c *Ctx, p *Prog, R string) {
 					hasFlag = true
 					flagIsField = true
 				}
-				if bo, ok := f.Cond.(*ssa.BinOp); ok && bo.Op == token.EQL && f.True {
+				if bo, ok := f.Cond.(*ssa.BinOp); ok && ((bo.Op == token.EQL && f.True) || (bo.Op == token.NEQ && !f.True)) {
 					if k, ok := constInt(bo.Y); ok && k == '-' {
 						hasDash = true
 					}
@@ -1244,9 +1244,18 @@ func c05Lookup(c *Ctx, p *Prog, R string) {
 				// scan function and nothing but closures of the extractor constructor call it
 				hasFlag = true
 				for _, g := range p.Funcs("benchproc") {
-					eachInstr(g, func(_ *ssa.BasicBlock, in2 ssa.Instruction) {
+					eachInstr(g, func(cb *ssa.BasicBlock, in2 ssa.Instruction) {
 						if ci, ok := in2.(ssa.CallInstruction); ok && ci.Common().StaticCallee() == dfn && g.Parent() == nil {
-							hasFlag = false
+							// a named caller: the call itself must sit where the caller's own /gomaxprocs flag is known true
+							guarded := false
+							for _, f := range factsAt(cb) {
+								if prm, ok := f.Cond.(*ssa.Parameter); ok && f.True && isBoolean(prm.Type()) && prm.Parent() == g {
+									guarded = true
+								}
+							}
+							if !guarded {
+								hasFlag = false
+							}
 						}
 					})
 				}
